@@ -284,7 +284,7 @@ func workerMain(t *testing.T, prop string) {
 	startWatchdog()
 	runTimeout := rig.RunTimeout
 	if runTimeout == 0 {
-		runTimeout = 120 * time.Second
+		runTimeout = 300 * time.Second
 	}
 
 	done := 0
